@@ -201,7 +201,7 @@ def _strip_path(path):
     return tuple(p for p in path if p != "*")
 
 
-def origins(body, op_or_local, path=(), max_steps=4000, transparent=TRANSPARENT_BWD, through_calls=()):
+def origins(body, op_or_local, path=(), max_steps=4000, transparent=TRANSPARENT_BWD, through_calls=(), through_all=()):
     """Backward slice: the set of origins the value of operand/local may derive from.
 
     Flow-insensitive per local (every definition of a local contributes), field-sensitive
@@ -218,6 +218,7 @@ def origins(body, op_or_local, path=(), max_steps=4000, transparent=TRANSPARENT_
         wl.append((op_or_local, tuple(path)))
     steps = 0
     through = re.compile("|".join(through_calls)) if through_calls else None
+    through_a = re.compile("|".join(through_all)) if through_all else None
     while wl:
         steps += 1
         if steps > max_steps:
@@ -314,7 +315,14 @@ def origins(body, op_or_local, path=(), max_steps=4000, transparent=TRANSPARENT_
                 t = payload
                 name = t.get("resolved") or t.get("callee") or "?"
                 decl = t.get("callee") or ""
-                if transparent.search(name) or transparent.search(decl) or (through and (through.search(name) or through.search(decl))):
+                if through_a and (through_a.search(name) or through_a.search(decl)):
+                    for op in t["args"]:
+                        if op.get("k") == "const":
+                            out.add(("const",) + const_value(op))
+                        else:
+                            wl.append((op["pl"]["l"], _strip_path(op["pl"]["p"])))
+                    out.add(("via", decl or name))
+                elif transparent.search(name) or transparent.search(decl) or (through and (through.search(name) or through.search(decl))):
                     args = t["args"]
                     if args:
                         op = args[0]
